@@ -233,7 +233,22 @@ def hcl_case(rng):
         zero = "0b" + "0" * tw
         expr = " + ".join([zero] + terms)
         assigned[t] = expr
-        stmts.append("%s = %s;" % (t, expr))
+        # now and then one statement drives several wires: each of them depends on what the expression reads,
+        # none of them on the others
+        twins = []
+        if rng.random() < 0.2:
+            for t2 in targets:
+                if t2 not in assigned and local_in_width.get(t2, 64) == tw and rank[t2] >= max([rank[s_] for s_ in srcs] + [-1]) and len(twins) < 2 and rng.random() < 0.6:
+                    if t2 == "pc" and "i10bytes" in srcs:
+                        continue
+                    twins.append(t2)
+                    assigned[t2] = expr
+                    for s_ in srcs:
+                        if s_ != "Y_a":
+                            deps.add((s_, t2))
+        names_ = [t] + twins
+        rng.shuffle(names_)
+        stmts.append("%s = %s;" % (" = ".join(names_), expr))
     stmts.append("const KF = 0, KT = 1;")
     if "Stat" not in assigned:
         stmts.append("Stat = STAT_AOK;")
